@@ -96,6 +96,8 @@ pub struct InputClass {
     pub distinct: bool,
     /// some feature holds two values a < b whose floating-point midpoint (a+b)/2 is not in [a, b)
     pub midpoint_trouble: bool,
+    /// the targets share a large common offset: all of one sign, min |y| >= 8 (max y - min y) > 0
+    pub offset_targets: bool,
 }
 
 pub fn classify(d: &Data) -> InputClass {
@@ -125,7 +127,9 @@ pub fn classify(d: &Data) -> InputClass {
     } else {
         "tied-feature-values"
     };
-    InputClass { name, distinct, midpoint_trouble: trouble }
+    let (lo, hi) = d.y.iter().fold((f64::INFINITY, f64::NEG_INFINITY), |(a, b), v| (a.min(*v), b.max(*v)));
+    let offset_targets = hi > lo && lo * hi > 0.0 && lo.abs().min(hi.abs()) >= 8.0 * (hi - lo);
+    InputClass { name, distinct, midpoint_trouble: trouble, offset_targets }
 }
 
 #[derive(Clone, Copy, PartialEq, Eq, Debug)]
@@ -272,13 +276,19 @@ struct Best {
     admissible: usize,
     /// number of admissible cuts whose gain is within the tolerance of the best
     ties: usize,
+    /// some admissible cut is worse than the best by more than the tolerance (the choice matters)
+    distinct_gains: bool,
 }
 
 /// Brute force over every feature and every cut between two consecutive distinct values that
 /// leaves at least `msl` rows on both sides.
-fn best_split(d: &Data, rows: &[usize], msl: usize, model: Model, yi: &[usize], k: usize, tol: f64) -> Best {
+///
+/// `yv` are the regression targets to compute the gains from, indexed like `d.y` (the judge passes
+/// the targets of the node CENTRED, so that the gains keep their precision whatever common offset
+/// the targets carry; a variance reduction does not change when a constant is subtracted).
+fn best_split(d: &Data, rows: &[usize], msl: usize, model: Model, yi: &[usize], yv: &[f64], k: usize, tol: f64) -> Best {
     let m = rows.len();
-    let mut best = Best { gain: f64::NEG_INFINITY, feat: 0, lo: 0.0, hi: 0.0, admissible: 0, ties: 0 };
+    let mut best = Best { gain: f64::NEG_INFINITY, feat: 0, lo: 0.0, hi: 0.0, admissible: 0, ties: 0, distinct_gains: false };
     let mut gains: Vec<f64> = Vec::new();
     let mut ord: Vec<usize> = Vec::with_capacity(m);
     let mut tot = vec![0usize; k];
@@ -287,7 +297,7 @@ fn best_split(d: &Data, rows: &[usize], msl: usize, model: Model, yi: &[usize], 
         if model.is_cls() {
             tot[yi[r]] += 1;
         } else {
-            stot += d.y[r];
+            stot += yv[r];
         }
     }
     let parent_imp = match model {
@@ -305,7 +315,7 @@ fn best_split(d: &Data, rows: &[usize], msl: usize, model: Model, yi: &[usize], 
             if model.is_cls() {
                 cnt[yi[r]] += 1;
             } else {
-                s += d.y[r];
+                s += yv[r];
             }
             let (a, b) = (d.x[ord[c - 1]][j], d.x[ord[c]][j]);
             if a == b || c < msl || m - c < msl {
@@ -329,7 +339,27 @@ fn best_split(d: &Data, rows: &[usize], msl: usize, model: Model, yi: &[usize], 
         }
     }
     best.ties = gains.iter().filter(|g| **g >= best.gain - tol).count();
+    best.distinct_gains = gains.iter().any(|g| *g < best.gain - tol);
     best
+}
+
+/// The targets of the given rows centred twice: first on the target of the first row (exact when
+/// the targets lie within a factor two of each other, as they do under a large common offset),
+/// then on the mean of these differences. Returned indexed like `d.y` (zero elsewhere), together
+/// with the sum of squares of the centred values (the total squared error of the node).
+fn centred_targets(d: &Data, rows: &[usize]) -> (Vec<f64>, f64) {
+    let mut c = vec![0.0; d.n()];
+    if rows.is_empty() {
+        return (c, 0.0);
+    }
+    let r0 = d.y[rows[0]];
+    let mu = rows.iter().map(|&r| d.y[r] - r0).sum::<f64>() / rows.len() as f64;
+    let mut sst = 0.0;
+    for &r in rows {
+        c[r] = (d.y[r] - r0) - mu;
+        sst += c[r] * c[r];
+    }
+    (c, sst)
 }
 
 pub struct Judged {
@@ -408,6 +438,21 @@ pub fn judge(t: &MTree, d: &Data, cfg: &Cfg, ic: &InputClass, predict: &mut dyn 
         yi = d.y.iter().map(|v| labels.iter().position(|l| l == v).unwrap()).collect();
     }
     let k = labels.len().max(1);
+    if cfg.model.is_cls() {
+        // label tables that are not small integers (extension, round 2)
+        if labels.iter().any(|l| l.fract() != 0.0) {
+            mc::count("cls_noninteger_labels");
+            if labels[k - 1] - labels[0] == (k - 1) as f64 && labels.windows(2).any(|w| w[1] - w[0] != 1.0) {
+                mc::count("cls_labels_span_k_minus_1_not_unit_spaced");
+            }
+            if labels.iter().all(|l| l.floor() == labels[0].floor()) {
+                mc::count("cls_labels_same_integer_part");
+            }
+        }
+        if labels[0].abs() >= 1e8 {
+            mc::count("cls_labels_large");
+        }
+    }
     let ymax = d.y.iter().fold(1.0f64, |a, v| a.max(v.abs()));
     let mean_tol = 64.0 * n as f64 * f64::EPSILON * ymax;
     let cls_opt = cfg.model.is_cls() && cfg.msl == 1 && ic.distinct;
@@ -495,7 +540,7 @@ pub fn judge(t: &MTree, d: &Data, cfg: &Cfg, ic: &InputClass, predict: &mut dyn 
                 if pure {
                     mc::count("pure_leaf_above_mss");
                 } else {
-                    let b = best_split(d, rows, cfg.msl, cfg.model, &yi, k, 0.0);
+                    let b = best_split(d, rows, cfg.msl, cfg.model, &yi, &d.y, k, 0.0);
                     if b.admissible > 0 {
                         mc::violation(
                             site("complete"),
@@ -527,12 +572,29 @@ pub fn judge(t: &MTree, d: &Data, cfg: &Cfg, ic: &InputClass, predict: &mut dyn 
             }
             let (a, b) = (nd.t.unwrap(), nd.f.unwrap());
             let (nt, nf) = (rows_at[a].len(), rows_at[b].len());
-            let (realised, scale) = match cfg.model {
+            // Regression: all gains (the realised one and the brute-force ones) are computed from
+            // the node's CENTRED targets, so they are as precise for y = 10^6 + {0,1,3} as for
+            // {0,1,3}. Tolerance: max(64 m eps SST, 1e-9 best gain), SST = sum of squares of the
+            // centred targets (every gain lies in [0, SST]) - a few ulps of the node's spread or
+            // the design's relative 1e-9 of the spread-based best gain - and never more than the
+            // former 1e-9 (sum y^2 + 1), which is useless under an offset (5000 for 10^6 + ...).
+            let yc: Vec<f64>;
+            let mut uncentred_unit = 0.0;
+            let mut tol_old = 1e-9;
+            let (realised, tol) = match cfg.model {
                 Model::Reg => {
-                    let st: f64 = rows_at[a].iter().map(|&r| d.y[r]).sum();
-                    let sf: f64 = rows_at[b].iter().map(|&r| d.y[r]).sum();
+                    let (c, sst) = centred_targets(d, rows);
+                    let st: f64 = rows_at[a].iter().map(|&r| c[r]).sum();
+                    let sf: f64 = rows_at[b].iter().map(|&r| c[r]).sum();
                     let sq: f64 = rows.iter().map(|&r| d.y[r] * d.y[r]).sum();
-                    (sse_gain(st, nt, sf, nf), sq + 1.0)
+                    yc = c;
+                    // What rounding alone can do to a comparison of two gains evaluated as
+                    // n_T mean_T^2 + n_F mean_F^2 - n mean^2 in double precision: each term is at
+                    // most sum y^2 and carries a relative error of at most (m + 4) eps / 2 (m
+                    // additions, one division, three multiplications). Used for the site key only.
+                    uncentred_unit = 2.0 * (cnt as f64 + 6.0) * f64::EPSILON * sq;
+                    tol_old = 1e-9 * (sq + 1.0);
+                    (sse_gain(st, nt, sf, nf), tol_old.min(64.0 * cnt as f64 * f64::EPSILON * sst))
                 }
                 Model::Cls(cr) => {
                     let mut ct = vec![0usize; k];
@@ -541,11 +603,24 @@ pub fn judge(t: &MTree, d: &Data, cfg: &Cfg, ic: &InputClass, predict: &mut dyn 
                     rows_at[b].iter().for_each(|&r| cf[yi[r]] += 1);
                     let tot: Vec<usize> = ct.iter().zip(&cf).map(|(x, y)| x + y).collect();
                     let g = impurity(cr, &tot, cnt) - (nt as f64 / cnt as f64) * impurity(cr, &ct, nt) - (nf as f64 / cnt as f64) * impurity(cr, &cf, nf);
-                    (g, 1.0)
+                    yc = Vec::new();
+                    (g, 1e-9)
                 }
             };
-            let tol = 1e-9 * scale;
-            let best = best_split(d, rows, cfg.msl, cfg.model, &yi, k, tol);
+            let best = best_split(d, rows, cfg.msl, cfg.model, &yi, &yc, k, tol);
+            // ... and never less than the design's relative 1e-9, now relative to the best gain
+            // itself (a spread-based quantity) instead of sum y^2
+            let tol = if cfg.model.is_cls() { tol } else { tol.max(1e-9 * best.gain).min(tol_old) };
+            if !cfg.model.is_cls() && ic.offset_targets {
+                mc::count("reg_offset_opt_nodes");
+                if best.distinct_gains {
+                    // the choice matters: some admissible cut is strictly worse than the best
+                    mc::count("reg_offset_choice_matters");
+                    if cfg.depth == Some(1) {
+                        mc::count("reg_offset_stump_choice_matters");
+                    }
+                }
+            }
             if cfg.model.is_cls() {
                 mc::count("cls_opt_nodes");
             } else {
@@ -555,10 +630,18 @@ pub fn judge(t: &MTree, d: &Data, cfg: &Cfg, ic: &InputClass, predict: &mut dyn 
                 mc::count("gain_tie_nodes");
             }
             if best.admissible > 0 && !(realised >= best.gain - tol) {
+                // A deficit that is smaller than one rounding of the uncentred sums of squares
+                // (n * mean^2 terms of magnitude sum y^2) is a different thing from a wrong sweep:
+                // it gets its own input class.
+                let key = if !cfg.model.is_cls() && best.gain - realised <= uncentred_unit {
+                    format!("{}.optimal-threshold:deficit-below-rounding-of-uncentred-squares", comp)
+                } else {
+                    site("optimal-threshold")
+                };
                 mc::violation(
-                    site("optimal-threshold"),
+                    key,
                     format!(
-                        "{}: node {} (rows {:?}) splits feature {} at {} ({}|{} rows) reducing {} by {}, but cutting feature {} between {} and {} reduces it by {}",
+                        "{}: node {} (rows {:?}) splits feature {} at {} ({}|{} rows) reducing {} by {}, but cutting feature {} between {} and {} reduces it by {}{}",
                         ctx(),
                         i,
                         rows,
@@ -574,9 +657,12 @@ pub fn judge(t: &MTree, d: &Data, cfg: &Cfg, ic: &InputClass, predict: &mut dyn 
                         best.feat,
                         best.lo,
                         best.hi,
-                        best.gain
+                        best.gain,
+                        if cfg.model.is_cls() { String::new() } else { format!(" (gains from centred targets, tolerance {:e})", tol) }
                     ),
                 );
+            } else if realised < best.gain {
+                mc::count("opt_gain_deficit_within_tolerance");
             }
             if realised.abs() <= tol {
                 mc::count("zero_gain_split");
